@@ -85,7 +85,9 @@ class ArraySchemaBackend(PandasSchemaBackend):
         )
 
         if lazy and error_handler.collected_errors:
-            if getattr(schema, "drop_invalid_rows", False):
+            if getattr(
+                schema, "drop_invalid_rows", False
+            ) and self.can_drop_invalid_rows(error_handler):
                 check_obj = self.drop_invalid_rows(check_obj, error_handler)
             else:
                 raise SchemaErrors(
